@@ -817,6 +817,26 @@ Section Reals.
       apply (maxabs_ge rnd n (msub Op X (mtrans X)) i j Hi Hj).
     - unfold root_residual, err_to_id in H0. rewrite memo_eq in H0. exact H0.
   Qed.
+
+  Theorem conv_flag_checkb_sound n M fl err tol :
+    conv_flag_checkb Op n M fl err tol = true -> fl = CONVERGED ->
+    maxabs Op n (msub Op M (mid Op)) <= tol /\ err <= tol.
+  Proof.
+    intros H ->. cbn [conv_flag_checkb] in H. apply andb_true_iff in H as [H1 H2].
+    apply fleb_R in H1, H2. split; assumption.
+  Qed.
+
+  Theorem eigpair_checkb_sound n p q eps enh L Q X tol :
+    eigpair_checkb Op n p q eps enh L Q X tol = true ->
+    forall k i, (k < n)%nat -> (i < n)%nat ->
+      Rabs (mvec Op n X (mcol Q k) i - eigen_d n p q eps enh L k * Q i k) <= tol * eigen_d n p q eps enh L k.
+  Proof.
+    unfold eigpair_checkb. intros H k i Hk Hi. rewrite forall_lt_true in H. specialize (H k Hk). cbv zeta in H.
+    rewrite forall_lt_true in H. specialize (H i Hi). apply fleb_R in H. cbn [fabs fsub fmul fpow R_ops] in H.
+    rewrite (vmemo_ok Op n (mcol Q k) i Hi) in H.
+    rewrite (mvec_proper Op n X X (reflexivity X) _ _ (vmemo_eq Op n (mcol Q k)) i Hi) in H.
+    exact H.
+  Qed.
 End Reals.
 
 (* ============================================================================ packaged statements *)
